@@ -1,6 +1,6 @@
 reg("C17", "automatic model fitting returns a usable, constraint-abiding model or reports failure",
-    parts=[dict(harness="c17_fit", cases=dict(quick=480, thorough=6000), timeout_case=300)],
-    rule="case = (source in {variogram computed from a harness-simulated data set, hand-made Vario through the public "
+    parts=[dict(harness="c17_fit", cases=dict(quick=480, thorough=6000), timeout_case=900)],
+    rule="the first 16 case indices replay one fixed, seed-independent scenario per open finding (plus a control); every other case = (source in {variogram computed from a harness-simulated data set, hand-made Vario through the public "
          "setters, variogram map}, ndim 1-3, nvar 1-3, 1-4 directions, pathology in {none, noisy, non-monotone, empty lags, "
          "pure nugget, all-zero, huge, tiny, few pairs}, 1-4 basic structures from the types offered for the dimension, "
          "constraint class in {none, ConsItem boxes/equalities on SILL/RANGE/ANGLE/PARAM, contradictory box, constant total sill}, "
@@ -11,6 +11,8 @@ reg("C17", "automatic model fitting returns a usable, constraint-abiding model o
          "structures, constraint class, option mask, weighting mode, expected-failure class) with >= 1 oracle evaluation",
     require=dict(distinct=100, oracles=dict(quick={"sill-psd": 150, "range-pos": 150, "nf-roundtrip": 80, "kriging-runs": 80},
                                             thorough={"sill-psd": 2000, "range-pos": 2000, "nf-roundtrip": 1000, "kriging-runs": 1000})),
-    assumptions=["constraints are only drawn on parameters that exist under the requested options and variogram geometry "
+    assumptions=["a hang is decided on CPU time: the harness aborts a case after 600 CPU seconds (children of the crash-prone input classes: 300 s, RLIMIT_CPU); timeout_case only backs this up",
+                 "failures of a case that belongs to the input class of an open finding are reported under the single key of that finding",
+                 "constraints are only drawn on parameters that exist under the requested options and variogram geometry "
                  "(e.g. no second-range constraint for an omnidirectional variogram)",
                  "Option_VarioFit promises are asserted exactly as worded in Option_VarioFit.hpp; lock_iso2d only in 3-D"])
